@@ -25,6 +25,26 @@ class P2(histprop.HistProp):
         return cases
 
 
+def twin_of(b):
+    a = vfx.Case(b.name[:-5] + "_mem")
+    a.lines = ["case " + a.name] + [("base mem" if l == "base phys" else l) for l in b.lines[1:]]
+    a.ops, a.nops, a.nfs = list(b.ops), b.nops, b.nfs
+    a.cfg = copy.copy(b.cfg)
+    a.first_snap = getattr(b, "first_snap", None)
+    a.twin = b.name
+    return a
+
+
+def corpus_cases():
+    """every operation on every kind of target on both backends (within the domain C01 specifies)"""
+    cases = []
+    for b in hist.matrix_cases("c02", ["phys"], c01_domain=True):
+        b.name = b.name + "_phys"
+        b.lines[0] = "case " + b.name
+        cases += [twin_of(b), b]
+    return cases
+
+
 def oracle(cases, mlines, ilines):
     """on the implementations alone: the same script on MemoryFS and on PhysicalFS gives, step by step, the
     same success/failure, the same returned values and the same tree and bytes"""
@@ -59,7 +79,7 @@ def view(line):
     return v
 
 
-P = P2("C02", [], use_spec=True, oracle=oracle,
+P = P2("C02", [], use_spec=True, oracle=oracle, corpus_cases=corpus_cases,
        rule=("the same generated history (60% untyped: calls of the wrong type for their target, overwrites, re-creations; "
              "contents up to 70 kB and non-UTF-8; no seeks on append handles) is run from an empty filesystem on MemoryFS and "
              "on PhysicalFS over a fresh temporary directory; oracle on the implementations alone: step by step the same "
